@@ -87,6 +87,17 @@ CHECKS = {
         note="Differential oracle: no hand-written expected values; faithful in-memory transport; sequence length bounded.",
         design_ref="DESIGN.md section 3 C11",
     ),
+    "C07": dict(
+        engine="S+N",
+        technique="exhaustive enumeration of exception classes x argument/attribute shapes x serializers x call kinds through the real Proxy/Daemon pair",
+        text="Every Exception subclass of builtins and every PyroError subclass x 5 argument tuples from the lossless core x 3 attribute dictionaries x 4 serializers "
+             "x {plain call, property read, batch member first/middle/last, streamed item at index 0/2} is raised by a real remote method; the caller must catch "
+             "exactly that class with equal args, equal custom attributes and a remote traceback naming the remote frame; unserialisable attribute/argument and a class "
+             "unknown to the receiver must yield a Pyro error describing the original; after every failure the same proxy must serve the next call (one communication "
+             "error is tolerated where the daemon deliberately drops the connection).",
+        note="BaseException-only classes are not enumerated (the daemon lets them propagate by convention); shapes a constructor rejects or rewrites locally are skipped.",
+        design_ref="DESIGN.md section 3 C07",
+    ),
 }
 
 NOT_YET = {}
